@@ -99,6 +99,8 @@ type c09Op struct {
 	flags   json.AppendFlags
 	pflags  json.ParseFlags
 	corrupt bool
+	// caseChanged: the keys of the input document are in another case
+	caseChanged bool
 }
 
 type c09Res struct {
@@ -367,6 +369,7 @@ func c09MakeOp(t *tape.Tape, ty *simType, pool []*simType) *c09Op {
 			if t.Chance(1, 3) {
 				// keys in another case: the case-insensitive fallback of the struct decoder
 				b = swapKeyCase(b, t.Bool())
+				op.caseChanged = true
 			}
 			if op.kind == opJSONParse && t.Chance(1, 3) {
 				op.pflags = json.DontMatchCaseInsensitiveStructFields
@@ -568,6 +571,9 @@ func runC09(r *core.Run) {
 			op := c09MakeOp(t, ty, pool)
 			if op.corrupt {
 				r.Probe("corrupted-input-ops")
+			}
+			if op.caseChanged {
+				r.Probe("case-changed-keys")
 			}
 			tasks[i] = append(tasks[i], op)
 			nops++
